@@ -6,10 +6,10 @@ const genNote = "Trusted: Go toolchain, the harness (gch) and its reflection-bas
 
 func genSpec(text, technique, rule string, assumptions []string, floors []floor, o gOpts) *spec {
 	if o.QSets == nil {
-		o.QSets = []string{"cases", "goldmaster", "sink"}
+		o.QSets = []string{"cases", "goldmaster", "sink", "casestl2"}
 	}
 	if o.TSets == nil {
-		o.TSets = []string{"cases", "goldmaster", "sink", "schema"}
+		o.TSets = []string{"cases", "goldmaster", "sink", "schema", "casestl2"}
 	}
 	if o.QRand == 0 { // every generated-code property also runs on freshly drawn random schemas (randset.go)
 		o.QRand = 1
